@@ -801,6 +801,11 @@ pub fn damage(ren: &Rendering, fragment: bool) -> Vec<(String, usize, String)> {
             for v in ["1.1", "2.0", "1.00", ""] {
                 out.push((format!("version:{}", v), 0, format!("{}<?xml version=\"{}\"?>{}", &t[..body_start], v, &t[after_decl..])));
             }
+            // EncName ::= [A-Za-z] ([A-Za-z0-9._] | '-')*
+            for e in ["", "8859-1", "-utf8", "_x", "utf 8", "\u{e9}"] {
+                out.push((format!("encname:{}", e), 0, format!("{}<?xml version=\"1.0\" encoding=\"{}\"?>{}", &t[..body_start], e, &t[after_decl..])));
+                out.push((format!("encname:{}", e), 0, format!("{}<?xml\tversion=\"1.0\" encoding='{}' ?>{}", &t[..body_start], e, &t[after_decl..])));
+            }
             out.push(("declaration-not-at-start".into(), 0, format!("{} <?xml version=\"1.0\"?>{}", &t[..body_start], &t[after_decl..])));
             out.push(("reserved-pi-target-after-root".into(), b, ins(b, "<?xml\tversion='1.0'?>")));
             out.push(("reserved-pi-target-after-root".into(), b, ins(b, "<?XmL x?>")));
